@@ -36,6 +36,8 @@ package utils
 //@   requires r != nil && r.Reader != nil && rwf(r.Reader)
 //@   may_panic true
 //@   modifies ghost rpos
+//@   loop 0 modifies ghost rpos
+//@   loop 0 invariant rpos(r.Reader) == old(rpos(r.Reader))
 //@   ensures one_byte: implies(result1 == nil, rpos(r.Reader) == old(rpos(r.Reader)) + 1 && result0 == rdata(r.Reader)[old(rpos(r.Reader))])
 //@   ensures none_on_error: implies(result1 != nil, rpos(r.Reader) == old(rpos(r.Reader)))
 
